@@ -26,6 +26,8 @@ type augSpec struct {
 	// per source batch (Batches, then IATBatches): 0 keep, 1 duplicate, 2 split in two,
 	// 3 split in three, 4 split in two and duplicate the first part
 	Plan []int `json:"plan"`
+	// non-zero: the source file is made valid only under an option set stored on it (gen.NeedsOpts)
+	NeedsOpts uint64 `json:"needsOpts,omitempty"`
 }
 
 func (a augSpec) opts() gen.Opts {
@@ -41,9 +43,16 @@ func (a augSpec) source() (f *ach.File, err error) {
 	}()
 	r := rng.New(a.Seed)
 	if a.SEC != "" {
-		return gen.FileOfSEC(r, a.SEC, a.opts()), nil
+		f = gen.FileOfSEC(r, a.SEC, a.opts())
+	} else {
+		f = gen.File(r, a.opts())
 	}
-	return gen.File(r, a.opts()), nil
+	if a.NeedsOpts != 0 && f != nil {
+		if g, _ := gen.NeedsOpts(rng.New(a.NeedsOpts), f); g != nil {
+			f = g
+		}
+	}
+	return f, nil
 }
 
 func resetNumber(b ach.Batcher) {
@@ -188,6 +197,9 @@ func genAug(r *rng.R) fileSpec {
 	a.Addenda = r.Chance(1, 2)
 	for i := 0; i < 12; i++ {
 		a.Plan = append(a.Plan, rng.Pick(r, []int{0, 1, 1, 2, 2, 3, 4}))
+	}
+	if r.Chance(1, 4) {
+		a.NeedsOpts = r.U64() | 1
 	}
 	return fileSpec{Tag: "gen", Aug: &a}
 }
